@@ -531,15 +531,19 @@ class Interp:
 
 
 def free_vars(fn):
-    """names a function literal uses but does not bind itself (params, locals, loop counters), transitively
-    through nested function literals"""
+    """names a function literal uses while it has not (yet) bound them itself (params, locals declared earlier, loop
+    counters), transitively through nested function literals.  `x = x + 1` reads the OUTER x before creating the local."""
     bound = set(n for n, _ in fn[1])
-    used = set()
+    free = set()
+
+    def use(name):
+        if name not in bound:
+            free.add(name)
 
     def ex(e):
         k = e[0]
         if k == "var":
-            used.add(e[1])
+            use(e[1])
         elif k in ("lit", "nil", "raw"):
             pass
         elif k == "bin":
@@ -554,7 +558,7 @@ def free_vars(fn):
             for a in e[1]:
                 ex(a)
         elif k == "new":
-            used.add(e[1])
+            use(e[1])
             for a in e[2]:
                 ex(a)
         elif k == "mcall":
@@ -574,9 +578,10 @@ def free_vars(fn):
         elif k == "or":
             ex(e[1]); ex(e[2])
         elif k in ("unwrap", "unwrap_stmt"):
-            used.add(e[1]); ex(e[2])
+            use(e[1]); ex(e[2])
         elif k == "fn":
-            used.update(free_vars(e))
+            for n in free_vars(e):
+                use(n)
         else:
             raise ValueError(e)
 
@@ -586,7 +591,7 @@ def free_vars(fn):
             ex(s[3])
             fl = s[4] if len(s) > 4 and s[4] else ()
             if "modify" in fl:
-                used.add(s[1])
+                use(s[1])
             else:
                 bound.add(s[1])
         elif k in ("print", "assert", "expr"):
@@ -629,7 +634,7 @@ def free_vars(fn):
 
     for x in fn[3]:
         st(x)
-    return used - bound - {"self"}
+    return free - {"self"}
 
 
 def key_of(v):
